@@ -443,15 +443,16 @@ def check_pc_free(case, ctx):
         return
     tol = {"float64": 1e-10, "float32": 1e-4}[dname] * s * m
     G = J @ J.T
-    lim = {"float64": 1e-9, "float32": 1e-3}[dname] * s ** 2
+    rn = np.linalg.norm(J, axis=1)
+    lim = {"float64": 1e-9, "float32": 1e-3}[dname] * np.outer(rn, rn)  # relative to the pair of rows (not to s^2: small rows conflict too)
     vio = None
-    if (G >= lim).all() or m == 1:
+    if ((G >= lim).all() and (rn > 0).all()) or m == 1:
         ctx.count("pcgrad_no_conflict_is_sum")
         if np.linalg.norm(out - J.sum(axis=0)) > tol:
             vio = ("pcgrad_without_conflict_is_not_the_sum", {"output": out.tolist(), "sum": J.sum(axis=0).tolist()})
     elif m <= 4:
         # recorder-free: membership in the finite candidate set (all projection orders)
-        if (np.abs(G) < lim).any():
+        if (np.abs(G) < lim).any() or E.guard({"name": "PCGrad"}, J, dname, orders=None):
             ctx.not_judged("pcgrad_inner_product_near_zero")
         else:
             cand = [R.pcgrad_candidates_per_row(J, i) for i in range(m)]
